@@ -40,7 +40,8 @@ fuzz_target!(|data: &[u8]| {
             edits.push(Edit { kind: u.arbitrary()?, a: u.arbitrary()?, b: u.arbitrary()?, v: u.arbitrary()? });
         }
         let follow = small_ops(&mut u, 12)?;
-        Ok(DeserCase { base, enc, edits, follow })
+        let boost = if u.ratio(1u8, 8u8)? { Some((u.arbitrary()?, u.int_in_range(0..=1)?)) } else { None };
+        Ok(DeserCase { base, enc, edits, follow, boost })
     })();
     let Ok(case) = case else { return };
     let out = vcore::deser::run_deser_case::<reg_r6::gen::Rg>(&case, "C11", 0);
